@@ -243,7 +243,10 @@ PROPS = {
                  "until the time-out's error result has been seen (all placements: callbacks x parked delivery x verdict). Free-running: 20-120 writes "
                  "delivered back to back on the bound peer's connection while 1-3 callbacks give their verdicts (drawn pattern of approve / deny / "
                  "silent) at once on the goroutines the stack started for them, an unbound peer writes and unrelated peers disconnect; exactly one "
-                 "outcome per write, lock cycles diagnosed from two goroutine dumps. Non-trivial: >=2 writes "
+                 "outcome per write, lock cycles diagnosed from two goroutine dumps. Deadline: with a silent callback and approvals as late as 0.6-0.8 T "
+                 "the time-out's error result is on the wire at 1.5 T after the arrival (two control timers of the harness decide whether the case "
+                 "can be judged). Reconnect: a write pending with some approvals, the connection removed, the device connected again and writing "
+                 "with the same msgCounter (optionally a late verdict for the old message): the new write is judged by its own verdicts. Non-trivial: >=2 writes "
                  "pending together or a verdict after / racing the time-out. Distinct by (callbacks, verdict rows, delivery order)."),
         "assumptions": ["real time: 25 ms approval time-out, event-driven waiting up to 1 s; slow-harness cases are discarded, never judged",
                         "pending writes are authorised when they arrive; the binding may change afterwards"],
@@ -252,6 +255,8 @@ PROPS = {
             {"name": "staggered", "run": "TestStaggeredWrites", "kind": "rapid", "checks": {Q: 480, T: 24000}, "shards": {Q: 8, T: 16}, "shrinktime": "15s"},
             {"name": "window", "run": "TestApprovalVsTimeout", "kind": "plain"},
             {"name": "concurrent", "run": "TestConcurrentWriters", "kind": "rapid", "checks": {Q: 96, T: 6400}, "shards": {Q: 8, T: 16}, "shrinktime": "5s"},
+            {"name": "deadline", "run": "TestTimeoutFromArrival", "kind": "rapid", "checks": {Q: 24, T: 1600}, "shards": {Q: 8, T: 16}, "shrinktime": "5s"},
+            {"name": "reconnect", "run": "TestApprovalsAcrossReconnect", "kind": "rapid", "checks": {Q: 160, T: 16000}, "shards": {Q: 4, T: 16}, "shrinktime": "5s"},
         ],
     },
     "C13": {
